@@ -63,7 +63,7 @@ func ExecNL(op M) (res any) {
 	need := map[string][]any{"cleanEdges": {a}, "union": {a, b}, "union3": {a, b, c}, "intersect": {a, b}, "add": {a, b},
 		"removeNodes": {a}, "relateNode": {a, pn}, "relateList": {a, b}, "nodeGraph": {a}, "nodeSiblings": {a},
 		"nodeDescendants": {a}, "purlType": {a}, "byName": {a}, "byID": {a}, "byIdent": {a}, "rootNodes": {a},
-		"match": {a, pn}, "update": {pn, pm}, "augment": {pn, pm}}
+		"match": {a, pn}, "update": {pn, pm}, "augment": {pn, pm}, "addBack": {a}}
 	for _, v := range need[name] {
 		switch x := v.(type) {
 		case *sbom.NodeList:
@@ -97,6 +97,30 @@ func ExecNL(op M) (res any) {
 		}
 	}
 	switch name {
+	case "addBack":
+		// a fragment taken from the list (it holds the list's own node objects) is added back to it
+		var frag *sbom.NodeList
+		how := 4
+		if h, ok := op["how"].(float64); ok {
+			how = int(h)
+		}
+		switch how {
+		case 0:
+			frag = a.NodeGraph(id)
+		case 1:
+			frag = a.NodeSiblings(id)
+		case 2:
+			frag = a.NodeDescendants(id, 3)
+		case 3:
+			frag = a.GetNodesByPurlType(asStr(op["t"]))
+		default:
+			frag = a
+		}
+		if frag == nil {
+			return "nil"
+		}
+		a.Add(frag)
+		return NLJ(a)
 	case "cleanEdges":
 		sbom.VerifCleanEdges(a)
 		return NLJ(a)
